@@ -22,6 +22,25 @@ check("C39", "exploration", "bounded-exhaustive input enumeration on the real fu
       "Every text of <=3 (quick) / <=4 (thorough) words over a 14-word vocabulary x 3 variants: every tokenizer token must be reported by the term filter; every track of <=3 entries with ids from {0,1,2,5} x 3 variants is written and read back and compared field by field.",
       "Round-trip differences caused by the on-disk format (no frame ids, Small drops flags, Large truncates the filter) are recorded as known findings by exact field-set signature.", "DESIGN.md §3 C39", "pure")
 
+check("C05", "model_checking", "explicit-state BFS over the real implementation with exact state deduplication",
+      "Breadth-first search over the reachable states of the real EmbeddedWal object on a tmpfs file: every op (append of every payload length the region admits, checkpoint, scan, reopen-from-header) is applied to every distinct state up to the depth bound; states are (region bytes, private cursors, header checkpoint fields, reference list) and are deduplicated exactly; each state is reached by re-executing its op history on a fresh object, and each state gets Scan and Reopen+Scan probes. Oracle: a Vec of (sequence, payload) since the last checkpoint. Regions 96/112/(144)/160/(208) with all lengths, 512 and 65536 with boundary lengths.",
+      "No abstraction: the model is the implementation, so every transition is validated against it by construction. Payload content is a function of its length (the WAL only hashes payload bytes). Depth-bounded; a capped region is reported as capped.", "DESIGN.md §3 C05", "walmc")
+check("C30", "exploration", "bounded-exhaustive input enumeration on the real codecs",
+      "Header: all 6^5x2 field-value combinations through encode/decode and every bit flip of bytes 0..96 of an encoding; footer: 72 values, wrong lengths, every bit flip of the 56 bytes and of the hashed TOC; TOC: three real TOCs written by the real API, every truncation, appended bytes, bit flips (checksum field always; all bytes in thorough); time index: every entry list of <=4 entries over 5 timestamps, wrong lengths, every bit flip of magic/count, a flip in every entry byte.",
+      "A mutated TOC image counts as rejected when Toc::decode fails or the decoded value fails verify_checksum (the two steps the open path performs).", "DESIGN.md §3 C30", "pure")
+check("C31", "exploration", "bounded-exhaustive input enumeration against a naive reference scan",
+      "Every byte string built from <=4 (quick) / <=5 (thorough) segments over 11 kinds (valid footers with TOC lengths 1/3/60, wrong hash, oversized toc_len, toc_len 0, truncated footer, bare magic, 'M' runs, filler, a footer nested in another footer's TOC) and, in thorough, every truncation of the <=4-segment strings; find_last_valid_footer must agree with a scan of every offset from the end, and return exactly the described TOC bytes.",
+      "toc_len = 0 footers are not valid commits (as in the implementation: an empty TOC never decodes).", "DESIGN.md §3 C31", "pure")
+check("C32", "exploration", "bounded-exhaustive input enumeration plus subprocess-isolated recursion ladders",
+      "(a) every string of <=4 (quick) / <=5 (thorough) tokens over an 18-token alphabet, spaced and tight: parse returns Ok or InvalidQuery, never panics; (b) eight recursion shapes at nesting depths 1..10^5 (10^6 thorough), each parsed and evaluated in its own process on an 8 MiB main-thread stack: a dead process is a violation; (c) every AST of <=5 (quick) / <=7 (thorough) nodes over 6 leaves printed in three styles and evaluated on 28 documents against reference semantics NOT > AND (explicit or implicit) > OR.",
+      "Uses the verif_hooks wrappers parse_query_debug / parse_and_evaluate.", "DESIGN.md §3 C32", "pure")
+check("C34", "exploration", "bounded-exhaustive input enumeration on the real planner",
+      "Unstructured: 'a'-filled texts of 7 lengths around the 2400/1200 thresholds with one mark ('.', newline, space, 'e-acute') at every offset within +-260 of each 1200-multiple (every offset in thorough) and every pair of marks at the slack-boundary offsets: ranges contiguous from 0 to the char count, non-empty, chunks concatenate to the normalized text. Structured: tables of 1/3/60 rows and code fences of 1/80 lines at start/middle/end of prose and pairwise combined: every non-blank normalized line appears in some chunk, no chunk empty.",
+      "'Appears' is tested with whitespace removed; a table delimiter row (only | - :) is compared modulo the length of its dash runs because the chunker re-renders it. Uses verif_hooks::plan_text_chunks_ranges.", "DESIGN.md §3 C34", "pure")
+check("C35", "exploration", "bounded-exhaustive input enumeration on the real function",
+      "Every text of <=3 (quick) / <=5 (thorough) blocks over 8 blocks (ASCII, sentence marks, newline, 2- and 4-byte characters, 25-byte and 24-byte runs so that gaps exceed the merge distance) x every occurrence list of <=2 ranges with endpoints from {0,1,3,len/2,len-1,len,len+2,usize::MAX} x window {0,1,4,80} x max {0,1,2}: slices non-empty, in bounds, on char boundaries, strictly increasing, non-overlapping, at most max, no panic.",
+      "Harness is built with overflow checks on, so arithmetic overflow panics are visible. Uses verif_hooks::compute_snippet_slices.", "DESIGN.md §3 C35", "pure")
+
 NOT_APPLICABLE = {}
 
 def main():
@@ -63,6 +82,8 @@ def main():
         "engines": [
             {"name": "pure", "path": "harness/src/p_*.rs", "serves_properties": [p for p, c in CHECKS.items() if c["engine"] == "pure"],
              "kind_free_text": "bounded-exhaustive enumeration of inputs of real pure functions, all 16 cores, per-case panic guard"},
+            {"name": "walmc", "path": "harness/src/s_wal.rs", "serves_properties": ["C05"],
+             "kind_free_text": "explicit-state BFS over the real EmbeddedWal with exact state dedup; states reached by history re-execution"},
         ],
         "checks": checks,
         "not_applicable": na,
